@@ -310,3 +310,21 @@ Definition swap_grid (g : grid) (ax1 ax2 : Z) : grid :=
   | (a, b, c) => {| nelx := a; nely := b; nelz := if nelz g =? 0 then 0 else c |}
   end.
 Definition swap_axis (ax1 ax2 d : Z) : Z := if d =? ax1 then ax2 else if d =? ax2 then ax1 else d.
+
+(* "fully supported solid" in layered coordinates: a solid element of the base layer, or a solid element with
+   at least one supported solid element among its supports in the layer below *)
+Inductive supported {T : Type} (one : T) (m1 m2 : Z) (offs : list (Z * Z)) (xl : nat -> Z * Z -> T) :
+  nat -> Z * Z -> Prop :=
+| sup_base p : xl O p = one -> supported one m1 m2 offs xl O p
+| sup_step l p o : xl (S l) p = one -> In o offs -> inside m1 m2 (padd p o) = true ->
+    supported one m1 m2 offs xl l (padd p o) -> supported one m1 m2 offs xl (S l) p.
+
+(* a flat field read in the layered coordinates of a print direction *)
+Definition layered {T : Type} (dflt : T) (g : grid) (dl dx : Z) (x : list T) : nat -> Z * Z -> T :=
+  fun l p => getT dflt x (coord g dl dx (Z.of_nat l) (fst p) (snd p)).
+
+(* np.finfo(np.float64).tiny *)
+Definition dbl_tiny : R := Rpower 2 (-1022).
+
+(* the vector of length len with c at position axis and zeros elsewhere *)
+Definition axis_vec (len : nat) (axis : Z) (c : Q) : list Q := upd (repeat 0%Q len) (Z.to_nat axis) c.
